@@ -454,6 +454,10 @@ CfdpHdrGridPart(i, tier) ==
   CASE i \in 1..16 -> {[op |-> "cfdphdr.rt", a |-> [h |-> h, sfx |-> s]] :
                          h \in HdrGrid(WidthPairs[i][1], WidthPairs[i][2]), s \in {<<>>}}
     [] i = 17 -> {[op |-> "cfdphdr.rt", a |-> [h |-> h, sfx |-> <<>>]] : h \in HdrBad}
+                 \* IDs / sequence number reach their values by in-place assignment to the byte fields
+                 \cup {[op |-> "cfdphdr.rt", a |-> [h |-> [HdrSample EXCEPT !.src = ids[1], !.seq = ids[2], !.dst = ids[3]], sfx |-> <<>>, via |-> "inplace"]] :
+                         ids \in {<<IdPat(WidthPairs[j][1], 0), IdPat(WidthPairs[j][2], 16), IdPat(WidthPairs[j][1], 32)>> : j \in 1..16}
+                                 \cup {<<IdFF(2), IdFF(4), Id80(2)>>, <<Zeros(8), Zeros(1), Zeros(8)>>}}
                  \cup {[op |-> "cfdphdr.rt", a |-> [h |-> HdrSample, sfx |-> s]] : s \in {<<0>>, <<255, 255>>, HdrTail}}
     [] i = 18 -> {[op |-> "cfdphdr.unpack", a |-> [octets |-> <<o1, 0, 5, o4>> \o HdrTail]] :
                      o1 \in 0..255, o4 \in (IF tier = "thorough" THEN 0..255
